@@ -99,6 +99,49 @@ for _e in ENTRY:
     entry_unit(_e)
 
 
+def chained_unit(first):
+    @unit(f"C14.chained.{first}", "C14", [f"{N}::Var.transform", f"{N}::_transform_var_with_bijector_instance", f"{N}::_transform_var_with_bijector_class", f"{N}::Var.value_node.fset"],
+          assumptions=["A-TFP", "first transformation: " + first + "; second transformation of the NEW variable with a bijector instance B2"])
+    def u(ip, first=first):
+        """the variable returned by a transformation is an ordinary variable: transforming IT again (which replaces its value node) keeps the
+        original variable the bijector image of it - x = b1(x_transformed) = b1(b2(x_transformed_transformed)) at the current values - keeps
+        every variable of the chain in the model, and leaves the original value unchanged."""
+        c = ip.ctx
+        g, p, s, d, x = setup(ip)
+        if first == "instance":
+            t1 = ip.call(method(ip, x, "transform"), [bijector_instance(ip, "B")], {})
+            b1 = lambda vals, arg: ip.uf("fwd_B", ip.to_U(arg))  # noqa: E731
+        elif first == "class_args":
+            t1 = ip.call(method(ip, x, "transform"), [bijector_class(ip, "B"), s], {})
+            b1 = lambda vals, arg: ip.uf("fwd_B", vals["s"], ip.to_U(arg))  # noqa: E731
+        else:
+            t1 = ip.call(method(ip, x, "transform"), [], {})
+            b1 = lambda vals, arg: ip.uf("fwd_default_D", vals["p"], ip.to_U(arg))  # noqa: E731
+        t2 = ip.call(method(ip, t1, "transform"), [bijector_instance(ip, "B2")], {})
+        model = g.build(x, s)
+        V = model.f["_vars"]
+        c.oblige("every_variable_of_the_chain_is_in_the_model", all(n_ in V for n_ in ("x", "x_transformed", "x_transformed_transformed")))
+        if not all(n_ in V for n_ in ("x", "x_transformed", "x_transformed_transformed")):
+            return
+        vals = {"p": z3.Const("val_p", U), "s": z3.Const("val_s", U)}
+        t2_0 = ip.to_U(ip.getattr(V["x_transformed_transformed"], "value"))
+        c.oblige("middle_variable_is_image_of_innermost", ip.to_U(ip.getattr(V["x_transformed"], "value")).eq(ip.uf("fwd_B2", t2_0)))
+        c.oblige("original_is_image_of_middle_initially", ip.to_U(ip.getattr(V["x"], "value")).eq(b1(vals, ip.uf("fwd_B2", t2_0))))
+        new = {"p": z3.Const("new_p", U), "s": z3.Const("new_s", U)}
+        tv = z3.Const("new_t2", U)
+        ip.setattr(V["p"], "value", new["p"])
+        ip.setattr(V["s"], "value", new["s"])
+        ip.setattr(V["x_transformed_transformed"], "value", tv)
+        c.oblige("original_follows_the_innermost_variable", ip.to_U(ip.getattr(V["x"], "value")).eq(b1(new, ip.uf("fwd_B2", tv))))
+        c.oblige("flags_moved_along_the_chain", ip.getattr(V["x_transformed_transformed"], "parameter") is True and ip.getattr(V["x_transformed"], "parameter") is False
+                 and ip.getattr(V["x"], "parameter") is False and ip.getattr(V["x_transformed"], "has_dist") is False)
+    return u
+
+
+for _f in ("instance", "class_args", "default"):
+    chained_unit(_f)
+
+
 @unit("C14.flag_moves_not_set", "C14", [f"{N}::Var.transform"])
 def u_flag(ip):
     """the parameter flag MOVES: a variable that was not a parameter yields a transformed variable that is not one either."""
